@@ -151,8 +151,14 @@ type known struct {
 	re     *regexp.Regexp
 }
 
+// loadKnown parses /verif/known_findings.txt. Lines:
+//
+//	known: property=<id> signature=/<regexp>/ <what fails>
+//	fixed: property=<id> <commit> <what failed>
+//
+// "fixed" lines suppress nothing. The file is never written at run time.
 func loadKnown(verif string) ([]*known, error) {
-	f, err := os.Open(filepath.Join(verif, "known_findings.jsonl"))
+	f, err := os.Open(filepath.Join(verif, "known_findings.txt"))
 	if err != nil {
 		if os.IsNotExist(err) {
 			return nil, nil
@@ -163,23 +169,26 @@ func loadKnown(verif string) ([]*known, error) {
 	var out []*known
 	sc := bufio.NewScanner(f)
 	sc.Buffer(make([]byte, 1<<20), 1<<20)
+	reKnown := regexp.MustCompile(`^known:\s+property=(C\d+)\s+signature=/(.*?)/\s+(.*)$`)
+	reFixed := regexp.MustCompile(`^fixed:\s+property=(C\d+)\s+(\S+)\s+(.*)$`)
 	for sc.Scan() {
 		line := strings.TrimSpace(sc.Text())
 		if line == "" || strings.HasPrefix(line, "#") {
 			continue
 		}
-		var k known
-		if err := json.Unmarshal([]byte(line), &k); err != nil {
-			return nil, fmt.Errorf("known_findings.jsonl: %v", err)
-		}
-		if k.Status == "known" {
-			re, err := regexp.Compile(k.Regex)
+		if m := reKnown.FindStringSubmatch(line); m != nil {
+			re, err := regexp.Compile(m[2])
 			if err != nil {
-				return nil, err
+				return nil, fmt.Errorf("known_findings.txt: %v", err)
 			}
-			k.re = re
+			out = append(out, &known{Status: "known", Prop: m[1], Regex: m[2], Where: m[3], re: re})
+			continue
 		}
-		out = append(out, &k)
+		if m := reFixed.FindStringSubmatch(line); m != nil {
+			out = append(out, &known{Status: "fixed", Prop: m[1], Commit: m[2], Where: m[3]})
+			continue
+		}
+		return nil, fmt.Errorf("known_findings.txt: cannot parse line: %s", line)
 	}
 	return out, sc.Err()
 }
